@@ -1016,7 +1016,16 @@ class Exec(object):
         return self._norm(i, n)
 
     def slice_(self, path, o, lo, hi, step):
-        if step is not None:
+        if step is not None and not isinstance(step, VNone):
+            # only concrete steps over concrete-spine sequences
+            oks, cs = concrete_of(step)
+            if oks and isinstance(o, (VTuple, VList)):
+                items = o.items if isinstance(o, VTuple) else self.list_items(path, o)
+                okl, cl = concrete_of(lo) if lo is not None and not isinstance(lo, VNone) else (True, None)
+                okh, ch = concrete_of(hi) if hi is not None and not isinstance(hi, VNone) else (True, None)
+                if okl and okh:
+                    r = list(items)[cl:ch:cs]
+                    return [(path, VTuple(r) if isinstance(o, VTuple) else self.new_list(path, r))]
             raise Unsupported('slice step')
         if isinstance(o, VUnion):
             out = []
